@@ -135,6 +135,7 @@ def setParam (p : Params) (name : String) (v : Int) : Option Params :=
   | "maxBlockSize" => some { p with maxBlockSize := n }
   | "inventorySize" => some { p with inventorySize := n }
   | "maxFutureBlockTime" => some { p with maxFutureBlockTime := n }
+  | "maxConnectionAttempts" => some { p with maxConnectionAttempts := n }
   | _ => none
 
 def DState.getState (d : DState) (name : String) : CoinState :=
